@@ -935,6 +935,65 @@ func ruleC03ArgsConsumed(p *Prog, a *Anchors, r *Report) {
 				bad = p.InstrPos(ret)
 			}
 		}
+		// … and the arguments of its intermediate and closing tags ({% endfilter x|banned %}): the parser that
+		// WrapUntilTag hands back for them is looked at (Count/Remaining, or handed to a parsing method), never dropped
+		nWrap := 0
+		for _, b := range f.Blocks {
+			for _, in := range b.Instrs {
+				c, ok := in.(*ssa.Call)
+				if !ok || c.Common().StaticCallee() == nil || c.Common().StaticCallee().Name() != "WrapUntilTag" || !p.InPkg(c.Common().StaticCallee()) {
+					continue
+				}
+				nWrap++
+				wkey := "tag " + name + ":closing-arguments"
+				if nWrap > 1 {
+					wkey += "#" + itoa(int64(nWrap))
+				}
+				used := false
+				for _, ref := range *c.Referrers() {
+					ex, isEx := ref.(*ssa.Extract)
+					if !isEx || ex.Index != 1 {
+						continue
+					}
+					var uses func(v ssa.Value, depth int) bool
+					uses = func(v ssa.Value, depth int) bool {
+						if depth > 3 {
+							return false
+						}
+						for _, r2 := range *v.Referrers() {
+							switch x := r2.(type) {
+							case *ssa.Call:
+								if x.Common().StaticCallee() != nil {
+									return true // a method of the argument parser, or a function it is handed to
+								}
+							case *ssa.Phi:
+								if uses(x, depth+1) {
+									return true
+								}
+							case *ssa.Store:
+								// kept in a local cell: the loads of the cell
+								if al, isAl := x.Addr.(*ssa.Alloc); isAl {
+									for _, r3 := range *al.Referrers() {
+										if u, isU := r3.(*ssa.UnOp); isU && uses(u, depth+1) {
+											return true
+										}
+									}
+								}
+							}
+						}
+						return false
+					}
+					if uses(ex, 0) {
+						used = true
+					}
+				}
+				if used {
+					r.OK(wkey, p.InstrPos(in), "the arguments of the intermediate/closing tag are looked at")
+				} else {
+					r.Bad(wkey, p.InstrPos(in), "the parser of `%s` drops the argument parser of its closing tag: what is written there ({%% end%s x|banned_filter %%}) compiles unseen", name, name)
+				}
+			}
+		}
 		key := "tag " + name + ":arguments-consumed"
 		switch {
 		case bad != "":
